@@ -277,7 +277,6 @@ def run(ctx):
         vals = [rng.choice(hot) if rng.random() < 0.35 else rand_int(rng) for _ in range(k)]
         call(case_ints, vals)
     ctx.sample({"ints_to_strings_batch": vals})
-
     # ---- B. str_to_int ------------------------------------------------------------------------
     def int_text(v):
         t = str(abs(v))
@@ -313,6 +312,17 @@ def run(ctx):
         texts = [int_text(rng.choice(hot) if rng.random() < 0.35 else rand_int(rng)) for _ in range(k)]
         call(case_parse_ints, texts)
     ctx.sample({"str_to_int_batch": texts})
+
+    # batches whose size (and total text length) is at or next to a block size: the conversions are element-wise at any batch size
+    from bnpmon.util import boundary_length
+    for _ in range(ctx.share(ctx.pick(16, 200))):
+        k = boundary_length(rng, 1 << 14)
+        small = rng.random() < 0.5
+        vals = [(rng.randint(0, 9) if small else (rng.choice(hot) if rng.random() < 0.1 else rand_int(rng))) for _ in range(k)]
+        if vals:
+            call(case_ints, vals)
+            call(case_parse_ints, [str(v) for v in vals])
+            ctx.count("batches_of_block_size")
 
     # ---- C. str_to_float ----------------------------------------------------------------------
     def case_parse_floats(texts):
